@@ -97,7 +97,7 @@ def run(tier, seed):
               "graph-shaped objects x merge policies; non-trivial = support sets with >=2 distinct samples (distinct first outcome)")
     r.bounds = {"tier": tier}
     r.assumptions = ["canonical form ignores field order, union member order, class names and index strings only"]
-    budget = 50 if tier == "quick" else 1200
+    budget = 240 if tier == "quick" else 1800
     for case, res in core.pmap(execute, _cases(tier), chunksize=16, budget_s=budget):
         r.add(case, res)
     if core.pmap.capped:
